@@ -152,15 +152,18 @@ register(Contract(
 MT_FIELDS = ["self._MarkdownToken__token_name", "self._MarkdownToken__token_class", "self._MarkdownToken__extra_data",
              "self._MarkdownToken__line_number", "self._MarkdownToken__column_number", "self._MarkdownToken__is_extension",
              "self._MarkdownToken__requires_end_token", "self._MarkdownToken__can_force_close", "self._MarkdownToken__is_special"]
+POS = ["implies(position_marker is not None, self.line_number == position_marker.line_number and "
+       "self.column_number == position_marker.index_number + position_marker.index_indent + 1)",
+       "implies(position_marker is None, self.line_number == line_number and self.column_number == column_number)"]
 register(Contract(
-    key="pymarkdown/tokens/container_markdown_token.py::ContainerMarkdownToken.__init__", properties=P,
-    ensures=["self.is_container and not self.is_leaf", "self.requires_end_token", "self.token_name is token_name"],
+    key="pymarkdown/tokens/container_markdown_token.py::ContainerMarkdownToken.__init__", properties=P + ["C05"],
+    ensures=["self.is_container and not self.is_leaf", "self.requires_end_token", "self.token_name is token_name"] + POS,
     modifies=MT_FIELDS))
 register(Contract(
-    key="pymarkdown/tokens/leaf_markdown_token.py::LeafMarkdownToken.__init__", properties=P,
-    ensures=["self.is_leaf and not self.is_container", "self.requires_end_token == requires_end_token", "self.token_name is token_name"],
+    key="pymarkdown/tokens/leaf_markdown_token.py::LeafMarkdownToken.__init__", properties=P + ["C05"],
+    ensures=["self.is_leaf and not self.is_container", "self.requires_end_token == requires_end_token", "self.token_name is token_name"] + POS,
     modifies=MT_FIELDS + ["self.__extracted_whitespace"]))
 register(Contract(
-    key="pymarkdown/tokens/inline_markdown_token.py::InlineMarkdownToken.__init__", properties=P,
-    ensures=["not self.is_leaf and not self.is_container", "self.requires_end_token == requires_end_token", "self.token_name is token_name"],
+    key="pymarkdown/tokens/inline_markdown_token.py::InlineMarkdownToken.__init__", properties=P + ["C05"],
+    ensures=["not self.is_leaf and not self.is_container", "self.requires_end_token == requires_end_token", "self.token_name is token_name"] + POS,
     modifies=MT_FIELDS))
